@@ -14,7 +14,7 @@ pub fn prop() -> HistProp {
         max_ops: 30,
         max_prepop: 14,
         cases_quick: 6000,
-        cases_thorough: 25_000,
+        cases_thorough: 150_000,
         nontrivial: |s, c| s.lower_only_mutations >= 1 && (c.cfg.overlay_layers() >= 3 || c.cfg.nesting() >= 2),
         rule: "overlays of 2..4 pre-populated layers (Mem/Phys/altroot/nested overlay as layer), typed histories incl. timestamp setters; every top-level layer is wrapped in a recorder: after each op no mutating trait call (create_*, append_file, remove_*, set_*_time, copy/move) and no handle write reached a layer with index>=1, pure observers (and the snapshot that follows every step) issued no mutating call to any layer, and a deep snapshot (types, bytes, created+modified times) of every lower layer taken through its own root is unchanged; non-trivial = >=1 mutating op on an entry that exists only in a lower layer, in a stack with >=3 layers or a nested adapter",
         floors: vec![("distinct_nontrivial", 50)],
